@@ -102,6 +102,25 @@ pub fn seeds(tier: Tier) -> Vec<(Seed, Level)> {
         p.extend(pre);
         out.push((mutate::seed(&s.id, &p, &s.inst, &[after.clone()]), Level::Full));
     }
+    // OpExtInst behind an import of each known set (and an unknown one), inside a block: table-boundary numbers
+    for setname in ["GLSL.std.450", "OpenCL.std", "NonSemantic.Unknown"] {
+        let table: Vec<u32> = match setname {
+            "GLSL.std.450" => g.glsl.iter().map(|e| e.opcode).collect(),
+            "OpenCL.std" => g.opencl.iter().map(|e| e.opcode).collect(),
+            _ => vec![1],
+        };
+        let max = table.iter().copied().max().unwrap_or(0);
+        let min = table.iter().copied().min().unwrap_or(0);
+        for n in [0u32, min, min.wrapping_sub(1), max, max + 1, 0x7FFF_FFFF, 0xFFFF_FFFF] {
+            let imp = Inst::new("ExtInstImport", None, Some(5), vec![Arg::Str(setname.to_string())]);
+            let f = Inst::new("Function", Some(50), Some(51), vec![Arg::Mask("FunctionControl", 0), Arg::IdRef(52)]);
+            let l = Inst::new("Label", None, Some(53), vec![]);
+            let ext = Inst::new("ExtInst", Some(50), Some(60), vec![Arg::IdRef(5), Arg::ExtInstNo(n), Arg::IdRef(61)]);
+            let r = Inst::new("Return", None, None, vec![]);
+            let fe = Inst::new("FunctionEnd", None, None, vec![]);
+            out.push((mutate::seed(&format!("ExtInst:{}:{}", setname, n), &[imp, f, l], &ext, &[r, fe]), Level::Framing));
+        }
+    }
     // constants whose type is declared after them, or twice with different widths: the loader accepts these,
     // and the disassembler's whole-section tracker then pairs a one-word literal with any declared width
     for w in [0u32, 1, 8, 16, 31, 32, 33, 64, 128, 0xFFFF_FFFF] {
